@@ -9,6 +9,7 @@ package weshnet
 // recover() and reported with the request that caused it.
 
 import (
+	"encoding/hex"
 	"context"
 	crand "crypto/rand"
 	"fmt"
@@ -297,6 +298,61 @@ func TestVerifC19(t *testing.T) {
 		methods = append(methods, method{m.StreamName, true, sv.MethodByName(m.StreamName)})
 	}
 	sort.Slice(methods, func(i, j int) bool { return methods[i].name < methods[j].name })
+	// keys of the right LENGTH that are degenerate as curve points (the neutral element, points of small
+	// order in both encodings, non-canonical field elements): every key-sized field of every request
+	// gets each of them once (a length check lets them through; a key agreement with one of them has no
+	// result)
+	hexKeys := []string{
+		"0000000000000000000000000000000000000000000000000000000000000000",
+		"0100000000000000000000000000000000000000000000000000000000000000",
+		"0000000000000000000000000000000000000000000000000000000000000080",
+		"ecffffffffffffffffffffffffffffffffffffffffffffffffffffffffffff7f",
+		"edffffffffffffffffffffffffffffffffffffffffffffffffffffffffffff7f",
+		"26e8958fc2b227b045c3f489f2ef98f0d5dfac05d3c63339b13802886d53fc05",
+		"c7176a703d4dd84fba3c0b760d10670f2a2053fa2c39ccc64ec7fd7792ac037a",
+		"e0eb7a7c3b41b8ae1656e3faf19fc46ada098deb9c32b1fd866205165f49b800",
+	}
+	var specialKeys [][]byte
+	for _, h := range hexKeys {
+		b, err := hex.DecodeString(h)
+		if err != nil || len(b) != 32 {
+			t.Fatal("bad special key")
+		}
+		specialKeys = append(specialKeys, b)
+	}
+	pool.bytesets = append(pool.bytesets, specialKeys[0], specialKeys[1], specialKeys[5])
+	for _, m := range methods {
+		reqT := m.fn.Type().In(0)
+		if !m.stream {
+			reqT = m.fn.Type().In(1)
+		}
+		fds := reflect.New(reqT.Elem()).Interface().(proto.Message).ProtoReflect().Descriptor().Fields()
+		for i := 0; i < fds.Len(); i++ {
+			fd := fds.Get(i)
+			switch {
+			case fd.Kind() == protoreflect.BytesKind && !fd.IsList() && strings.HasSuffix(string(fd.Name()), "_pk"):
+				for _, k := range specialKeys {
+					req := reflect.New(reqT.Elem()).Interface().(proto.Message)
+					req.ProtoReflect().Set(fd, protoreflect.ValueOfBytes(k))
+					directed[m.name] = append(directed[m.name], req)
+				}
+			case fd.Kind() == protoreflect.MessageKind && !fd.IsList() && !fd.IsMap() && (fd.Message().Name() == "ShareableContact" || fd.Message().Name() == "Group"):
+				for _, k := range specialKeys {
+					req := reflect.New(reqT.Elem()).Interface().(proto.Message)
+					if fd.Message().Name() == "ShareableContact" {
+						sd := make([]byte, 32)
+						crand.Read(sd)
+						req.ProtoReflect().Set(fd, protoreflect.ValueOfMessage((&protocoltypes.ShareableContact{Pk: k, PublicRendezvousSeed: sd}).ProtoReflect()))
+					} else {
+						sec := make([]byte, 32)
+						crand.Read(sec)
+						req.ProtoReflect().Set(fd, protoreflect.ValueOfMessage((&protocoltypes.Group{PublicKey: k, Secret: sec, SecretSig: make([]byte, 64), GroupType: protocoltypes.GroupType_GroupTypeMultiMember}).ProtoReflect()))
+					}
+					directed[m.name] = append(directed[m.name], req)
+				}
+			}
+		}
+	}
 	// the credential verification flows need an external HTTP service to SUCCEED; they are called all
 	// the same (connection refused / invalid link), what matters here is that they do not crash
 	skip := map[string]string{}
